@@ -163,6 +163,9 @@ pub fn run(ctx: &Ctx) -> Outcome {
             // matrices of the general family have inverses with larger entries than C13's own families: the
             // f32 inverse and product carry more rounding error into the 16.16 sampler
             c.slack = 2.;
+            // (C13's very wide surfaces are for its own transforms: under a general one the quantisation of the
+            // matrix entries, multiplied by pixel coordinates in the hundreds, outgrows the sampler's error band)
+            c.w = c.w.min(64);
         }
         let mut co = CaseOut::default();
         co.hash = crate::prng::hash_str(&format!("{:?}{}{}{:?}{:?}{}{:?}", (c.w, c.h, c.iw, c.ih), c.repeat, c.bilinear, c.src_t, c.ctm, c.alpha, c.data));
@@ -223,10 +226,23 @@ pub fn run(ctx: &Ctx) -> Outcome {
         let curves = rng.chance(0.5);
         // (lyon's EPSILON for f32 is 1e-4, its limit 1e-8: with the random transform's own factor of up to 3 that is 2^20)
         let e = if !curves && rng.chance(0.15) { *rng.pick(&[22i32, 24, 26, 30, 34]) } else { *rng.pick(&[-20i32, -16, -14, -13, -12, -11, -10, -9, -8, -6, -3, 3, 6, 8, 9, 10, 11, 12, 14, 16, 18, 20]) };
+        // far out in the exponent range (user units of 2^-60 .. 2^66 px) for straight shapes and solid colours, which
+        // need nothing but the transform itself; down to where its determinant is a subnormal but non-zero f32
+        let extreme = !curves && rng.chance(0.12);
+        let e = if extreme { *rng.pick(&[-66i32, -64, -62, -60, -50, -40, 40, 50, 60]) } else { e };
         let k = (2.0f32).powi(e);
-        let src = scale_invariant_source(&random_source(&mut rng, w, h, 3));
+        let src = if extreme { SrcSpec::Solid(premul_pixel(&mut rng)) } else { scale_invariant_source(&random_source(&mut rng, w, h, 3)) };
         let o = DrawOptions { blend_mode: random_mode(&mut rng), alpha: random_alpha(&mut rng), antialias: if rng.chance(0.7) { AntialiasMode::Gray } else { AntialiasMode::None } };
         let op = match rng.below(10) {
+            _ if extreme => match rng.below(3) {
+                0 => Op::Fill(random_path(&mut rng, w, h, false), src, o),
+                1 => {
+                    let mut style = random_style(&mut rng, 5.);
+                    style.dash_array.clear();
+                    Op::Stroke(random_path(&mut rng, w, h, false), src, style, o)
+                }
+                _ => Op::FillRect(rng.range(-1., w as f64) as f32, rng.range(-1., h as f64) as f32, rng.range(0.5, w as f64) as f32, rng.range(0.5, h as f64) as f32, src, o),
+            },
             8 | 9 => {
                 let (iw, ih) = (rng.int(1, 5) as i32, rng.int(1, 5) as i32);
                 let img = Img { w: iw, h: ih, data: random_image_data(&mut rng, iw, ih) };
@@ -250,12 +266,19 @@ pub fn run(ctx: &Ctx) -> Outcome {
         let clip_path = if rng.chance(0.2) { Some(if curves { small_shape(&mut rng, w, h) } else { random_path(&mut rng, w, h, false) }) } else { None };
         let mut co = CaseOut::default();
         co.hash = crate::prng::hash_str(&format!("{:?}{:?}{:?}{}{:?}", (w, h), t, op, e, clip_path));
+        let co_hash = co.hash;
         let render = |scale: Option<f32>| -> Vec<u32> {
             let mut dt = DrawTarget::from_vec(w, h, init.clone());
             let apply = |dt: &mut DrawTarget, op: &Op| match scale {
                 Some(k) => scaled_twin(op, k).expect("has a twin").apply(dt),
                 None => op.apply(dt),
             };
+            // (one case in four: another tiny transform is set first and replaced at once - the last one set counts)
+            if let Some(k) = scale {
+                if co_hash % 4 == 1 {
+                    dt.set_transform(&Transform::scale(k / 2., k / 2.).then(&t));
+                }
+            }
             apply(&mut dt, &Op::SetTransform(t));
             if let Some(p) = &clip_path {
                 apply(&mut dt, &Op::PushClip(p.clone()));
@@ -432,6 +455,61 @@ pub fn run(ctx: &Ctx) -> Outcome {
         co.nontrivial = !skipped && res.inside > 0 && res.outside > 0;
         if let Some(v) = res.violation {
             co.viol("C11", format!("stroke under T={}: {}", transform_str(&c.t), v));
+        }
+        if want || !co.violations.is_empty() {
+            co.desc = Some(super::c04::case_desc(&c));
+        }
+        co
+    });
+    // curves stroked under transforms that stretch one axis 16..64 times more than the other: the stroker flattens in
+    // user space with a tolerance derived from the transform as a whole (0.1 px over the square root of the
+    // determinant), and the outline must stay where that tolerance puts it, whichever axis is the stretched one
+    run_cases(ctx, &mut out, SubSpec { name: "curved_strokes_under_uneven_scales", cases: ctx.n(2_500, 60_000), exhaustive: false, max_secs: secs / 2. }, |i, want, st| {
+        let mut rng = ctx.rng("curved_strokes_under_uneven_scales", i);
+        let mut co = CaseOut::default();
+        let w = rng.int(28, 48) as i32;
+        let h = rng.int(28, 48) as i32;
+        let ratio = *rng.pick(&[16.0f64, 32., 64., 24.]);
+        let u = rng.range(0.7, 1.5);
+        let tall = rng.chance(0.6); // y is the stretched axis
+        let (sx, sy) = if tall { (u / ratio.sqrt(), u * ratio.sqrt()) } else { (u * ratio.sqrt(), u / ratio.sqrt()) };
+        let t = Transform::scale(sx as f32, sy as f32);
+        let t = if rng.chance(0.2) { Transform::translation(rng.range(-3., 3.) as f32, rng.range(-3., 3.) as f32).then(&t) } else { t };
+        let inv = match t.inverse() {
+            Some(v) => v,
+            None => return co,
+        };
+        // a curve running along the unstretched axis across the surface, bulging along the stretched one (device space)
+        let (along, across) = if tall { (w as f64, h as f64) } else { (h as f64, w as f64) };
+        let a0 = rng.range(-4., 4.);
+        let a2 = along + rng.range(-4., 4.);
+        let c0 = rng.range(0.25, 0.75) * across;
+        let c2 = rng.range(0.25, 0.75) * across;
+        let bulge = rng.range(0.4, 1.6) * across * if rng.chance(0.5) { 1. } else { -1. };
+        let dev = |al: f64, ac: f64| -> Point { let (x, y) = if tall { (al, ac) } else { (ac, al) }; inv.transform_point(Point::new(x as f32, y as f32)) };
+        let mut pb = PathBuilder::new();
+        let p0 = dev(a0, c0);
+        pb.move_to(p0.x, p0.y);
+        if rng.chance(0.6) {
+            let c = dev(rng.range(0.2, 0.8) * along, (c0 + c2) / 2. + bulge);
+            let p2 = dev(a2, c2);
+            pb.quad_to(c.x, c.y, p2.x, p2.y);
+        } else {
+            let c1 = dev(rng.range(0.1, 0.5) * along, c0 + bulge);
+            let c2p = dev(rng.range(0.5, 0.9) * along, c2 + bulge * rng.range(0.3, 1.0));
+            let p2 = dev(a2, c2);
+            pb.cubic_to(c1.x, c1.y, c2p.x, c2p.y, p2.x, p2.y);
+        }
+        // 4..12 device px thick along the stretched axis
+        let width = (rng.range(4., 12.) / sx.max(sy)) as f32;
+        let style = StrokeStyle { width, cap: *rng.pick(&[LineCap::Butt, LineCap::Round]), join: LineJoin::Round, miter_limit: 4., dash_array: vec![], dash_offset: 0. };
+        let c = super::c04::StrokeCase { w, h, path: pb.finish(), style, t, aa: rng.chance(0.8) };
+        co.hash = crate::prng::hash_str(&format!("{:?}{:?}{:?}", c.path, c.style, c.t));
+        let (res, skipped) = super::c04::run_stroke_case(&c, st);
+        st.add(if tall { "curved_strokes_with_y_stretched" } else { "curved_strokes_with_x_stretched" }, 1);
+        co.nontrivial = !skipped && res.inside > 0 && res.outside > 0;
+        if let Some(v) = res.violation {
+            co.viol("C11", format!("curved stroke under T={}: {}", transform_str(&c.t), v));
         }
         if want || !co.violations.is_empty() {
             co.desc = Some(super::c04::case_desc(&c));
